@@ -22,7 +22,7 @@ CHECKS = {
     'C10': ('TLA+ WTinyLFU.tla + TLC closure + trace validation with the real estimator verdict', '4 C10', 'model_checking', ''),
     'C12': ('TLA+ spec + TLC model checking + TLC trace validation (PROP=C12)', '4 C12', 'model_checking', ''),
     'C13': ('TLA+ spec + TLC model checking + TLC trace validation (PROP=C13: read-only events leave the full observation unchanged)', '4 C13', 'model_checking', ''),
-    'C03': ('TLA+ structural audit predicate (C03Audit) evaluated by TLC on the hooked list/index dump after every call of every TLC-generated behaviour; quarantining+poisoning allocator as memory monitor', '4 C03', 'model_checking', ''),
+    'C03': ('TLA+ structural audit predicate (C03Audit) evaluated by TLC on the hooked list/index dump after every call of every TLC-generated behaviour; pointer-level model RawLRUHeap.tla closed by TLC; quarantining+poisoning allocator (quick) and Miri on a sample of the generated behaviours (thorough) as memory monitors', '4 C03', 'model_checking', ''),
     'C04': ('TLA+ token-conservation predicate (C04Event) evaluated by TLC on drop-tracked keys/values of every call of every TLC-generated behaviour, cache dropped after every test', '4 C04', 'model_checking', ''),
     'C16': ('TLA+ C16Step: clone in every reachable state (TLC closure), lock-step operation on original and clone, TLC validates equality/independence', '4 C16', 'model_checking', ''),
     'C17': ('TLA+ PairTrace.tla: the same TLC-generated drivers executed under five BuildHashers and a shuffled heap; TLC checks the traces are equal record by record', '4 C17', 'model_checking', ''),
